@@ -166,3 +166,21 @@ def to_jsonl(dataset):
 
 def from_jsonl(values):
     raise NotImplementedError()
+
+
+# the compiled conversion; the name process_table is rebound just below to a wrapper around it
+_process_table_by_name = process_table
+
+
+def process_table(table, row_factory, max_chunksize) -> list:  # noqa: F811
+    """
+    Rows are laid out by position. The compiled conversion goes through pandas, which picks
+    the columns to convert by name: with a repeated column name (legal in Arrow) the cells of
+    one column were converted as if they were another's (numbers and booleans came back as
+    text when a text column had the same name, list columns raised). Such a table is handed
+    over under distinct names.
+    """
+    names = table.column_names
+    if len(set(names)) != len(names):
+        table = table.rename_columns([str(i) for i in range(len(names))])
+    return _process_table_by_name(table, row_factory, max_chunksize)
